@@ -11,7 +11,8 @@ from vsym.runner import Ob
 
 PATHS = ("src/a.py", "src/app/b.py", "src/app/x.tmp", "srcfoo/c.py", "lib/d.py", "top.py", "docs/e.md", "src/App/h.py", "Docs/i.md",
          "src/appx/f.py", "src/app/deep/g.py", "README", "src")
-PATTERNS = (r".*\.py$", r".*\.tmp$", r"^src/", r"^src/app/", r".*", r"\.md$", r"^never-matches$", r"(?i)B\.PY$")
+PATTERNS = (r".*\.py$", r".*\.tmp$", r"^src/", r"^src/app/", r".*", r"\.md$", r"^never-matches$", r"(?i)B\.PY$",
+            r"^lib/|\.tmp$", r"^docs/|app/b\.py$")       # a leading ^ binds to the first alternative only
 DIR_KEYS = ("src", "src/app", "/", "lib", "src/", "src/app/deep", "src/App", "docs")     # directory names are case-sensitive (patterns are not)
 
 
